@@ -180,7 +180,8 @@ def materialise(pack, seed, vote_scale=3, exact_boundaries=True, ballast_rep=26,
                     meta["unit_blocklist"].append(fid)
             if u["inFeed"]:
                 if u["rep"]:
-                    pev = thr if (i + p) % 2 == 0 else 100
+                    # at the threshold, at 100, or above 100 (more votes in than the provider expected): reporting all the same
+                    pev = thr if (i + p) % 2 == 0 else (100 if (i + p) % 4 == 1 else 103)
                 else:
                     pev = thr - 1 if (i + p) % 2 == 0 else min(70 if high_pev else 40, thr - 3)
                     if exact_boundaries and (i + p) % 5 == 0 and not high_pev:
